@@ -87,6 +87,19 @@ func init() {
 			return false
 		})
 		s += "def splitCases : List String := " + leanStrList(conds) + "\n"
+		// split: what follows the switch — how the pieces are stored into the target array and what is returned
+		var store []string
+		after := false
+		for _, st := range findFunc(fn, "interp", "split").Body.List {
+			if _, ok := st.(*ast.SwitchStmt); ok {
+				after = true
+				continue
+			}
+			if after {
+				store = append(store, c10Lines(st)...)
+			}
+		}
+		s += "def splitStore : List String := " + leanStrList(store) + "\n"
 		s += "def compileRegex : List String := " + leanStrList(c10Lines(findFunc(ip, "interp", "compileRegex").Body)) + "\n"
 		s += "def addRegexFlags : List String := " + leanStrList(c10Lines(findFunc(parseFile("internal/compiler/compiler.go"), "", "AddRegexFlags").Body)) + "\n"
 		for _, n := range []string{"maxCachedRegexes", "maxCachedFormats"} {
